@@ -2,7 +2,7 @@
    dumped views, and from there to the whole trace of a history of entry points. *)
 From Coq Require Import List ZArith Bool Lia Permutation.
 From Verif Require Import Lib.Wire C05.Model C05.Spec C05.Codec C05.Trace
-     C05.Proofs_base C05.Proofs_ledger C05.Proofs_index.
+     C05.Proofs_base C05.Proofs_ledger C05.Proofs_index C05.Proofs_ghost C05.Proofs_sched.
 Import ListNotations.
 Open Scope Z_scope.
 
@@ -159,13 +159,34 @@ Proof.
 Qed.
 
 (* ---------- one state ---------- *)
-Lemma prop_view_ok stable code c :
-  all_infos exact_inv c -> all_infos bounds_inv c -> (stable = true -> jinv c) ->
-  prop_view stable (view code c) = 0.
+Lemma eq_listZ_refl l : eq_listZ l l = true.
+Proof. induction l as [|x t IH]; cbn; [reflexivity|]. rewrite Z.eqb_refl. exact IH. Qed.
+
+Lemma v_ghost_ok_view L c i : ghost L c -> In i (infos c) -> v_ghost_ok L (info_view i) = true.
 Proof.
-  intros He Hb Hj. unfold prop_view.
+  intros Hg Hi. unfold v_ghost_ok. cbn [info_view v_assigned]. rewrite forallb_sort_by.
+  apply forallb_forall. intros q' Hq'. apply in_map_iff in Hq'. destruct Hq' as [q [<- Hq]].
+  cbn [fst snd]. destruct (Hg i q Hi Hq) as [r [Hr He]]. rewrite Hr.
+  assert (E : vals (snd q) = vals r) by (unfold vals; apply map_ext; intros k; apply He).
+  rewrite E. apply eq_listZ_refl.
+Qed.
+
+Lemma prop_view_ok stable last code c :
+  all_infos exact_inv c -> all_infos bounds_inv c -> (stable = true -> jinv c) ->
+  (forall L, last = Some L -> ghost L c) ->
+  prop_view stable last (view code c) = 0.
+Proof.
+  intros He Hb Hj Hgh. unfold prop_view.
   rewrite (forallb_views v_bounds_ok) by (intros i Hi; apply v_bounds_ok_view, (Hb i Hi)).
   rewrite (forallb_views v_exact_ok) by (intros i Hi; apply v_exact_ok_view, (He i Hi)).
+  assert (Hl : match last with
+               | Some L => negb (forallb (v_ghost_ok L) (o_infos (view code c)))
+               | None => false
+               end = false).
+  { destruct last as [L|]; [|reflexivity].
+    rewrite (forallb_views (v_ghost_ok L)); [reflexivity|].
+    intros i Hi. apply (v_ghost_ok_view L c); [apply Hgh; reflexivity|exact Hi]. }
+  rewrite Hl.
   rewrite (forallb_views v_once_ok) by (intros i _; apply v_once_ok_view).
   rewrite (forallb_views v_matchable_def) by (intros i _; apply v_matchable_def_view).
   cbn [negb]. destruct stable; [|reflexivity].
@@ -174,8 +195,33 @@ Proof.
 Qed.
 
 (* ---------- whole traces of entry points ---------- *)
-Definition hist_nonneg (hs : list hop) : bool :=
-  forallb (fun h => forallb op_nonneg (lower h)) hs.
+Definition hist_nonneg (hs : list hop) : bool := forallb hop_nonneg hs.
+
+Lemma pod_delete_nonneg p : forallb op_nonneg (lower_pod_delete p) = true.
+Proof. unfold lower_pod_delete. destruct (e_rsv p =? 0), (e_op p); reflexivity. Qed.
+
+Lemma pod_update_nonneg o p : pev_nonneg p = true -> forallb op_nonneg (lower_pod_update o p) = true.
+Proof.
+  intros H. unfold lower_pod_update. destruct (e_done p); [apply pod_delete_nonneg|].
+  destruct (e_node p =? 0).
+  - destruct o as [q|]; [|reflexivity]. destruct (e_node q =? 0); [reflexivity|apply pod_delete_nonneg].
+  - rewrite forallb_app. apply andb_true_iff. split.
+    + destruct ((match o with Some q => e_rsv q | None => 0 end =? 0) && (e_rsv p =? 0)); [reflexivity|].
+      cbn [forallb op_nonneg]. unfold as_preq. cbn [snd]. unfold pev_nonneg in H. rewrite H. reflexivity.
+    + destruct (e_op p); reflexivity.
+Qed.
+
+Lemma lower_nonneg c h : hop_nonneg h = true -> forallb op_nonneg (lower c h) = true.
+Proof.
+  destruct h; cbn [hop_nonneg lower]; intros H; try reflexivity.
+  - destruct (is_active s); reflexivity.
+  - destruct (is_active s); [reflexivity|]. destruct (is_finished s); reflexivity.
+  - cbn. rewrite H. reflexivity.
+  - apply pod_update_nonneg, H.
+  - apply andb_true_iff in H. apply pod_update_nonneg, H.
+  - apply pod_delete_nonneg.
+  - destruct (sched_target c req n t); [|reflexivity]. cbn. rewrite H. reflexivity.
+Qed.
 
 Lemma all_along_nonneg c l :
   forallb op_nonneg l = true -> all_along (fun _ o => op_nonneg o) c l = true.
@@ -185,7 +231,6 @@ Proof.
   cbn [all_along]. rewrite H1. cbn. apply IH, H2.
 Qed.
 
-(* ---------- clause 8: the current owner of an operating pod ends up assigned ---------- *)
 Lemma has_assigned_add i u req : has_assigned u (add_assigned i u req) = true.
 Proof.
   unfold add_assigned. destruct (has_assigned u i) eqn:E; [exact E|].
@@ -197,16 +242,16 @@ Lemma crun_app c a b : crun (crun c a) b = crun c (a ++ b).
 Proof. unfold crun. rewrite fold_left_app. reflexivity. Qed.
 
 Lemma claim_after c h :
-  match owner_claim h with
+  match owner_claim c h with
   | Some (u, own) => exists i, find_info u (infos (hstep c h)) = Some i /\ has_assigned own i = true
   | None => True
   end.
 Proof.
-  unfold owner_claim, hstep. destruct (rev (lower h)) as [|o l] eqn:E; [exact I|].
+  unfold owner_claim, hstep. destruct (rev (lower c h)) as [|o l] eqn:E; [exact I|].
   destruct o as [b own s| | | |]; try exact I. destruct b; [exact I|].
   destruct (own =? 0) eqn:Eo; [exact I|].
-  assert (El : lower h = rev l ++ [CUpdate false own s]).
-  { rewrite <- (rev_involutive (lower h)), E. reflexivity. }
+  assert (El : lower c h = rev l ++ [CUpdate false own s]).
+  { rewrite <- (rev_involutive (lower c h)), E. reflexivity. }
   rewrite El, <- crun_app. cbn [crun fold_left cstep]. set (c1 := crun c (rev l)).
   unfold c_update. destruct (find_info (s_uid s) (infos c1)) as [i0|].
   - exists (add_owner own (update_info i0 s)). split.
@@ -229,9 +274,9 @@ Proof.
     + unfold add_owner. rewrite Eo. apply has_assigned_add.
 Qed.
 
-Lemma claim_ok_view code c h : claim_ok (owner_claim h) (view code (hstep c h)) = true.
+Lemma claim_ok_view code c h : claim_ok (owner_claim c h) (view code (hstep c h)) = true.
 Proof.
-  pose proof (claim_after c h) as H. destruct (owner_claim h) as [[u own]|]; [|reflexivity].
+  pose proof (claim_after c h) as H. destruct (owner_claim c h) as [[u own]|]; [|reflexivity].
   destruct H as [i [Hf Ha]]. destruct (find_info_some _ _ _ Hf) as [Hi Hu].
   unfold claim_ok. apply existsb_exists. exists (info_view i). split.
   - cbn [view o_infos]. apply In_sort_by. apply in_map. exact Hi.
@@ -243,17 +288,17 @@ Qed.
 
 (* histories of entry points (event handlers, assume/forget, Plugin.Reserve / Unreserve of reserve
    pods) are histories of cache operations *)
-Lemma hrun_flat : forall hs c, hrun c hs = crun c (flat_map lower hs).
+Lemma hrun_cops : forall hs c, hrun c hs = crun c (hops_cops c hs).
 Proof.
   induction hs as [|h t IH]; intros c; [reflexivity|].
-  cbn [hrun fold_left flat_map]. rewrite <- crun_app. apply IH.
+  cbn [hrun fold_left hops_cops]. rewrite <- crun_app. apply IH.
 Qed.
 
 Lemma index_invariants_entry_points hs :
-  all_along node_stable_op init_cache (flat_map lower hs) = true ->
+  all_along node_stable_op init_cache (hops_cops init_cache hs) = true ->
   index_sound (hrun init_cache hs) /\ index_complete (hrun init_cache hs)
   /\ nomination_ok (hrun init_cache hs).
-Proof. intros H. rewrite hrun_flat. apply index_invariants_stable_histories, H. Qed.
+Proof. intros H. rewrite hrun_cops. apply index_invariants_stable_histories, H. Qed.
 
 (* every step code of the model's own trace is 0 *)
 Definition all_zero (l : list Z) : bool := forallb (fun z => z =? 0) l.
@@ -264,32 +309,45 @@ Proof.
   intros k. rewrite (He k). split; [|lia]. rewrite held_unfold. apply held_of_nonneg, Hw.
 Qed.
 
-Lemma trace_full_gen : forall hs c st,
+Lemma trace_full_gen : forall hs c st last code0,
   hist_nonneg hs = true ->
-  all_infos exact_inv c -> (st = true -> jinv c) ->
-  all_zero (codes hs (flags c st hs)
+  all_infos exact_inv c -> (st = true -> jinv c) -> (forall L, last = Some L -> ghost L c) ->
+  uniq c ->
+  all_zero (codes (claims c hs) hs (flags c st last hs) (o_infos (view code0 c))
                   (map (fun p : Z * cache => view (fst p) (snd p)) (htrace c hs))) = true.
 Proof.
-  induction hs as [|h t IH]; intros c st Hnn He Hj; [reflexivity|].
+  induction hs as [|h t IH]; intros c st last code0 Hnn He Hj Hgh Hu; [reflexivity|].
   cbn [hist_nonneg forallb] in Hnn. apply andb_true_iff in Hnn. destruct Hnn as [Hh Ht].
-  cbn [flags htrace map codes all_zero forallb fst snd].
-  set (st' := st && all_along node_stable_op c (lower h)).
+  cbn [claims flags htrace map codes all_zero forallb fst snd].
+  set (st' := st && all_along node_stable_op c (lower c h)).
+  set (last' := next_last c (lower c h) last).
   assert (He' : all_infos exact_inv (hstep c h)).
-  { apply exact_run; [apply all_along_nonneg, Hh|exact He]. }
+  { apply exact_run; [apply all_along_nonneg, lower_nonneg, Hh|exact He]. }
   assert (Hj' : st' = true -> jinv (hstep c h)).
   { unfold st'. intros E. apply andb_true_iff in E. destruct E as [E1 E2].
     apply jinv_run; [exact E2|apply Hj, E1]. }
+  assert (Hgh' : forall L, last' = Some L -> ghost L (hstep c h)).
+  { unfold last', next_last. intros L HL. destruct last as [L0|]; [|discriminate].
+    destruct (all_along sync_op c (lower c h)) eqn:Es; [|discriminate].
+    inversion HL; subst L. apply ghost_run; [exact Es|apply Hgh; reflexivity]. }
+  assert (Hu' : uniq (hstep c h)) by (apply uniq_run, Hu).
   apply andb_true_iff. split.
-  - unfold step_code. rewrite prop_view_ok; [|exact He'|apply bounds_of_exact, He'|exact Hj'].
+  - unfold step_code. cbn [fst snd].
+    rewrite (sched_code_ok c h code0 (hcode c h) Hu). cbn [Z.eqb negb].
+    rewrite prop_view_ok; [|exact He'|apply bounds_of_exact, He'|exact Hj'|exact Hgh'].
     cbn. rewrite claim_ok_view. reflexivity.
   - apply IH; assumption.
 Qed.
 
 Lemma trace_full hs :
   hist_nonneg hs = true ->
-  all_zero (codes hs (flags_of hs) (views_of hs)) = true.
+  all_zero (codes (claims init_cache hs) hs (flags_of hs) [] (views_of hs)) = true.
 Proof.
-  intros H. apply trace_full_gen; [exact H|apply all_infos_init|intros _; apply jinv_init].
+  intros H. apply (trace_full_gen hs init_cache true (Some []) 0); try exact H.
+  - apply all_infos_init.
+  - intros _. apply jinv_init.
+  - intros L _. apply ghost_init.
+  - apply uniq_init.
 Qed.
 
 Lemma first_nonzero_all_zero l : all_zero l = true -> first_nonzero l = 0.
